@@ -269,12 +269,27 @@ func (cs *Contracts) parseLines(file string, lines []srcLine, assumed bool) erro
 			cs.Ghosts[g.Name] = g
 			curF, curS = nil, nil
 		case "specfn":
-			m := regexp.MustCompile(`^(\S+)\s*\(([^)]*)\)\s*(\S+)$`).FindStringSubmatch(rest)
-			if m == nil {
+			open := strings.Index(rest, "(")
+			if open < 0 {
 				return errf(ln, "bad specfn")
 			}
-			sf := &SpecFn{Name: m[1], Ret: m[3]}
-			for _, a := range strings.Split(m[2], ",") {
+			depth, closeIdx := 0, -1
+			for k := open; k < len(rest); k++ {
+				if rest[k] == '(' {
+					depth++
+				} else if rest[k] == ')' {
+					depth--
+					if depth == 0 {
+						closeIdx = k
+						break
+					}
+				}
+			}
+			if closeIdx < 0 {
+				return errf(ln, "bad specfn")
+			}
+			sf := &SpecFn{Name: strings.TrimSpace(rest[:open]), Ret: strings.TrimSpace(rest[closeIdx+1:])}
+			for _, a := range splitTop(rest[open+1 : closeIdx]) {
 				a = strings.TrimSpace(a)
 				if a != "" {
 					sf.Args = append(sf.Args, a)
